@@ -8,7 +8,7 @@
    for the faithful model and for the code (C16_refuted_stale_ok = the recorded finding); (3) statements are abstract:
    the byte-level strip / encode('ascii') path is tied by the correspondence only (non-ASCII statements: recorded finding). *)
 From Coq Require Import ZArith Bool List.
-From GS Require Import model.Direct proofs.DirectProofs.
+From GS Require Import model.Direct proofs.DirectProofs proofs.DirectCheck.
 Import ListNotations.
 
 (* ORDER: in every reachable state and for every device behaviour, what the device has received followed by what is
@@ -78,6 +78,23 @@ Proof. exact refuted_alarm_during_wait. Qed.
 Theorem C16_refuted_stale_ok : exists s, run nat [CallWrite; Read; Return] (init nat [7%nat] 1) = Some s /\
   outcomes nat s = [Returned] /\ received nat s = [] /\ queue nat s = [7%nat].
 Proof. exact refuted_stale_ok. Qed.
+
+(* THE TIE, as a theorem.  The correspondence run accepts an observed trace (write() entered / the device received x / a
+   line was handed to the reader / write() returned or raised) when check_trace accepts it and the observed replies are
+   answerable by a FIFO device (every ok / error reply answers a statement received and not yet answered).  Every such
+   trace is a run of the transition system above -- some interleaving ls of caller, sender, device and reader steps from
+   the quiescent start whose observable projection is exactly the observed trace -- so C16_order and the other theorems
+   about runs speak about what was observed.  (The reader may lag: a line is handled at any moment after it was observed.) *)
+Theorem C16_accepted_trace_is_run : forall stmts evs, check_trace stmts evs = true -> answerable evs 0 0 = true ->
+  exists ls t, run nat ls (init nat stmts 0) = Some t /\ observe ls (init nat stmts 0) = evs.
+Proof. exact accepted_trace_is_run. Qed.
+Print Assumptions C16_accepted_trace_is_run.
+
+Example C16_accepted_nonvacuous :
+  let evs := [ECall; ERecv 1; ERx LStatus; ERx LOk; EReturn Returned; ECall; ERecv 2; ERx LErr; EReturn Raised] in
+  check_trace [1; 2]%nat evs = true /\ answerable evs 0 0 = true /\
+  answerable [ECall; ERx LOk; ERecv 1; EReturn Returned] 0 0 = false.
+Proof. vm_compute. repeat split. Qed.
 
 (* non-vacuity: two statements, a status line, an error reply to the second *)
 Example C16_nonvacuous : exists s,
